@@ -366,6 +366,11 @@ class Exec:
             return self.do_try(st, path)
         if isinstance(st, ast.With):
             return self.do_with(st, path)
+        if isinstance(st, ast.While):
+            h = getattr(self, "while_handler", None)
+            if h is None:
+                self.unsupported(st, "while loop (no contract given)")
+            return h(self, st, path)
         if isinstance(st, ast.Continue):
             return [("continue", None, path)]
         if isinstance(st, ast.Break):
@@ -630,7 +635,8 @@ class Exec:
 
     def e_List(self, e, p):
         if not e.elts:
-            return [(Empty("list"), p)]
+            f = getattr(self, "empty_list_factory", None)
+            return [(f(p) if f is not None else Empty("list"), p)]
         return self.e_Tuple(e, p)
 
     def e_Attribute(self, e, p):
